@@ -194,7 +194,9 @@ QuiesceF(x, mask) ==
                 !.seen  = [s \in Subs |-> IF dr(s) THEN x.chclosed[s] ELSE x.seen[s]]]
 
 ----------------------------------------------------------------------------
-Act(op, s, h, k, res) == [op |-> op, s |-> s, h |-> h, k |-> k, res |-> res]
+Act2(op, s, h, s2, h2, k, res) ==
+  [op |-> op, s |-> s, h |-> h, s2 |-> s2, h2 |-> h2, k |-> k, res |-> res]
+Act(op, s, h, k, res) == Act2(op, s, h, 0, 0, k, res)
 
 Done(x) == IF Eager THEN Settle(x) ELSE x
 
@@ -209,6 +211,16 @@ Subscribe(s) ==
   /\ \E h \in Heights(c) : \E chc \in SubscribeChoices(c, h) :
        Finish(Done(SubscribeF(c, s, chc)),
               Act("Subscribe", s, h, IF c.hpc = "run" THEN c.emitted ELSE -1, chc[1]))
+
+\* Two NewSubscription calls in flight at the same time: both clients are past
+\* the assignment of their subscription id (manager.go:204) before the
+\* handler has finished registering either; the handler serves s1, then s2.
+Subscribe2(s1, s2) ==
+  /\ s1 # s2 /\ SubscribeEn(c, s1) /\ SubscribeEn(c, s2) /\ c.hpc = "run" /\ ~c.quit
+  /\ \E h1, h2 \in {h \in Heights(c) : h <= c.emitted} :
+       LET x1 == SubscribeF(c, s1, <<"ok", Backlog(h1, c.emitted)>>)
+           x2 == SubscribeF(x1, s2, <<"ok", Backlog(h2, c.emitted)>>)
+       IN  Finish(Done(x2), Act2("Subscribe2", s1, h1, s2, h2, c.emitted, "ok"))
 
 Emit ==
   /\ EmitEn(c)
@@ -260,6 +272,7 @@ Init ==
 
 Next ==
   \/ \E s \in Subs : Subscribe(s)
+  \/ \E s1, s2 \in Subs : Subscribe2(s1, s2)
   \/ Emit
   \/ \E s \in Subs : Cancel(s)
   \/ \E s \in Subs : Read(s)
